@@ -765,6 +765,10 @@ pub fn run_sched_case(case: &SchedCase, prop: &str, trace: bool) -> SchedRun {
     if prop == "C02" {
         // the cache holds for each key nothing or a last value written to it
         for e in &snap.entries {
+            // (keys written by Fill operations are not part of the per-key history)
+            if e.k >= 2_000_000 {
+                continue;
+            }
             let Some((wk, w)) = seq_info.get(&e.seq) else {
                 mkret!(Violation { prop: "C02", step: stats.steps as usize, msg: format!("after all threads stopped the cache holds v{} for k{}, which nobody wrote", e.seq, e.k) });
             };
@@ -1054,8 +1058,8 @@ pub fn sched_strategy(prop: &str, thorough: bool) -> BoxedStrategy<SchedCase> {
     if prop == "C12" {
         return recency_strategy(thorough);
     }
-    let fill = prop == "C09" || prop == "C04";
-    let gets = prop == "C09" || prop == "C11";
+    let fill = prop == "C09" || prop == "C04" || prop == "C02";
+    let gets = prop == "C09" || prop == "C11" || prop == "C08";
     let expiry_prop: Option<&'static str> = match prop {
         "C05" => Some("C05"),
         "C06" => Some("C06"),
@@ -1129,6 +1133,7 @@ fn litmus() -> Vec<(&'static str, SchedCase)> {
         ("get || advance; get; advance; sync; get (tti)", SchedCase { cfg: Cfg { tti: Some(SEC), ..base(None, None) }, init: vec![ins(0, 1), TOp::Sync, TOp::Advance { ns: 100 * MS }], threads: vec![vec![get(0)], vec![TOp::Advance { ns: 500 * MS }, get(0), TOp::Advance { ns: 600 * MS }, TOp::Sync, get(0)]], preempt: vec![], first: 0, patience: 0 }),
         ("insert; sync || 100 gets; insert (read queue beyond its flush point)", SchedCase { cfg: base(Some(2), None), init: vec![ins(0, 1), TOp::Sync], threads: vec![vec![ins(1, 1), TOp::Sync], vec![TOp::Gets { k: 0, n: 100 }, ins(0, 1)]], preempt: vec![], first: 0, patience: 0 }),
         ("insert; sync || 400 gets (read queue full)", SchedCase { cfg: base(Some(2), None), init: vec![ins(0, 1), TOp::Sync], threads: vec![vec![ins(1, 1), TOp::Sync], vec![TOp::Gets { k: 0, n: 400 }, get(0)]], preempt: vec![], first: 0, patience: 0 }),
+        ("insert; sync || 400 inserts of fresh keys; update; get (write queue full)", SchedCase { cfg: base(None, None), init: vec![ins(0, 1), TOp::Sync], threads: vec![vec![ins(1, 1), TOp::Sync], vec![TOp::Fill { n: 400 }, ins(0, 2), get(0)]], preempt: vec![], first: 0, patience: 0 }),
         ("invalidate_all || invalidate_all (clock advancing)", SchedCase { cfg: base(None, None), init: vec![ins(0, 1), TOp::Advance { ns: 1 }], threads: vec![vec![TOp::InvalidateAll], vec![TOp::Advance { ns: 1 }, ins(1, 1), TOp::Advance { ns: 1 }, TOp::InvalidateAll, get(1)]], preempt: vec![], first: 0, patience: 0 }),
     ]
 }
